@@ -37,6 +37,9 @@ Lemma map_rd_in_b2b ds junk : length ds = length junk -> map rd_in (cells_b2b ds
 Proof. revert junk; induction ds as [|d ds IH]; intros [|j junk] H; simpl in *; try discriminate; auto.
   rewrite IH; auto. Qed.
 
+Lemma cells_b2b_length ds junk : length junk = length ds -> length (cells_b2b ds junk) = length ds.
+Proof. revert junk; induction ds as [|d ds IH]; intros [|j junk] H; simpl in *; try discriminate; auto. Qed.
+
 (* ---------------------------------------------------------------------------------------------- *)
 (* running a single-block body over a list of cells, left to right                                  *)
 
